@@ -246,7 +246,7 @@ class ExactSolver(object, metaclass=_AddParametersToDocstring):
 
     def __call__(self, r, t):
 
-        return self._run(numpy.asarray(r), t)
+        return self._run(numpy.asarray(r, dtype=float), t)
 
 
 class ExactSolution(numpy.recarray):
